@@ -93,7 +93,13 @@ ProbeOK(mm, pr, lo) ==
                            ELSE {0})
   /\ (~HadError(mm.resp) /\ mm.mode = "ready" /\ ~mm.contx) => ((mm.cont # NoCont) = pr.cancont)
 
-OutSoFar(mm) == IF mm.resp # <<>> /\ mm.resp[Len(mm.resp)].k = "out" THEN mm.resp[Len(mm.resp)].s ELSE <<>>
+LastOut(r) == IF r # <<>> /\ r[Len(r)].k = "out" THEN r[Len(r)].s ELSE <<>>
+\* the printed text an interrupt can have been preceded by (optional output: with or without it)
+\* (the line break that closes an optional trace printed at column 0 comes with whatever is printed next)
+DropNl(t) == IF t # <<>> /\ t[Len(t)] = 10 THEN SubSeq(t, 1, Len(t) - 1) ELSE t
+OutSoFars(mm) == IF HasOpt(mm.resp)
+                 THEN {LastOut(WithOpt(mm.resp, TRUE)), DropNl(LastOut(WithOpt(mm.resp, TRUE))), LastOut(WithOpt(mm.resp, FALSE))}
+                 ELSE {LastOut(mm.resp)}
 NOuts(mm) == Cardinality({i \in 1..Len(mm.resp) : mm.resp[i].k = "out"})
 
 Init == /\ ci \in ChunkStarts /\ hi = (IF ci + Chunk - 1 < Len(Rec) THEN ci + Chunk - 1 ELSE Len(Rec))
@@ -136,7 +142,7 @@ IntrPin(mm, pr) ==
 
 \* an interrupt delivered while the command was executing: after exactly the recorded output
 Intr == /\ ph = "run" /\ m.mode = "run" /\ nint < Cur.ints
-        /\ OutSoFar(m) = Cur.intpre
+        /\ Cur.intpre \in OutSoFars(m)
         /\ IntrPin(m, Cur.intprobe)
         /\ m' = Interrupt(m) /\ nint' = nint + 1
         /\ loose' = (loose \/ m'.cont # NoCont)
